@@ -472,7 +472,7 @@ def run_part(ctx, build):
             for i in range(nf)]
     units = plan(ctx, pinned, corpus, gen, fgen)
     stats = {"pinned": len(pinned), "corpus": len(corpus), "generated": len(gen), "floatgen": len(fgen), "units": len(units), "run": 0,
-             "skipped_budget": 0, "agree": 0, "differ": 0, "nocompile_all": 0, "timeout_all": 0,
+             "skipped_budget": 0, "agree": 0, "differ": 0, "nocompile_all": 0, "timeout_all": 0, "timeout_retried": 0,
              "levels": {}, "classes": {}, "model_compared": 0, "model_differs": 0, "shrink_runs": 0,
              "compile_msgs_stripped": 0, "causes": {}, "compiler_crash_all": 0}
     if gen_note:
@@ -493,6 +493,21 @@ def run_part(ctx, build):
     with cf.ThreadPoolExecutor(max_workers=max(2, common.NCPU // 2)) as ex:
         for i, r in ex.map(work, order):
             results[i] = r
+    # a time limit hit on some routes only is first of all a sign of a loaded machine (the -Fao -Fx compilation also
+    # runs the C compiler and the linker): such a unit is run once more, alone, with three times the limit, and
+    # only what that second run shows is judged (a route that really hangs still hangs)
+    unit_timeout = {}
+    for i in order:
+        r = results[i]
+        if isinstance(r, dict):
+            kk = {klass(r[k]) for k in ROUTES}
+            if "timeout" in kk and len(kk) > 1:
+                stats["timeout_retried"] = stats.get("timeout_retried", 0) + 1
+                unit_timeout[i] = timeout * 3
+                try:
+                    results[i] = run_unit(build, units[i][1], units[i][2], unit_timeout[i])
+                except Exception as e:          # noqa
+                    results[i] = e
     seen = set()
     reported = set()
     for i, (name, text, q, origin, m) in enumerate(units):
@@ -540,15 +555,15 @@ def run_part(ctx, build):
         cause = None
         sig = signature(name, q, d, origin)
         if not (d["only_backtrace"] or d["bug"]):
-            cause = probe_cause(build, text, q, res, d, timeout)
+            cause = probe_cause(build, text, q, res, d, unit_timeout.get(i, timeout))
             if cause:
                 stats["causes"][cause] = stats["causes"].get(cause, 0) + 1
                 sig = signature(name, q, d, origin, cause)
         if sig in reported:
             continue
         small, used = text, 0
-        if not ctx._listed(sig):
-            small, used = shrink(build, text, q, d, timeout, 600 if thorough else 150, 1500 if thorough else 150)
+        if not ctx._listed(sig) and "timeout" not in d["classes"].values():      # (every run of a hanging route costs the whole limit)
+            small, used = shrink(build, text, q, d, unit_timeout.get(i, timeout), 600 if thorough else 150, 1500 if thorough else 150)
             stats["shrink_runs"] += used
             if origin == "generated" and not (cause or d["bug"] or d["only_backtrace"]):
                 sig = signature(name, q, d, origin, None, small)
